@@ -99,7 +99,8 @@ def execute(case):
         P, S, changed = cache[key]
         out["runs"] += 2
         ref = BufferMachine(P, 1, sequential=True)
-        ref.run_single("f", args_for(ref, env), Core(0))
+        ref_core = Core(0)
+        ref.run_single("f", args_for(ref, env), ref_core)
         if key not in guarded:
             # workload discipline: the loop as written (stages separated by barriers) must itself be race free
             guarded.add(key)
@@ -128,6 +129,14 @@ def execute(case):
             extra = [x for x in b if x not in a][:2]
             out.update(status="violation", oracle="stage-executions", message=f"(stage op, tile, data read) multiset differs: missing {miss!r} unexpected {extra!r}", env_index=i)
             return out
+        ta = sorted((h for h in ref_core.hist if h[0] == "test"), key=repr)
+        for c_ in cl.cores:
+            tb_ = sorted((h for h in c_.hist if h[0] == "test"), key=repr)
+            if ta != tb_:
+                miss = [x for x in ta if x not in tb_][:2]
+                extra = [x for x in tb_ if x not in ta][:2]
+                out.update(status="violation", oracle="global-ops", message=f"core {c_.id} executes other global ops than the sequential loop: missing {miss!r} (of {len(ta)}), unexpected {extra!r} (of {len(tb_)})", env_index=i)
+                return out
         if sub.externals() != ref.externals():
             bad = sorted(k for k, v in ref.externals().items() if sub.mem.get(k) != v)[:3]
             out.update(status="violation", oracle="final-contents", message=f"cells {bad} end as {[sub.mem.get(k) for k in bad]}, sequential loop: {[ref.mem[k] for k in bad]}", env_index=i)
